@@ -1,5 +1,7 @@
 import XalanModel.C02.CompileProofs
 import XalanModel.C02.CompareProofs
+import XalanModel.C02.Predicates
+import XalanModel.C02.Doc
 /-!
 # C02 — XPath 1.0 expressions evaluate to the value the Recommendation defines
 
@@ -114,5 +116,49 @@ theorem compare_identity_nodeset_counterexample : identityShortcuts = true →
     let x : Obj DS D := ⟨7, .nodes [some 1, some 2]⟩
     (xobjCompare D.ops .lt x x = false ∧ specCompare D.ops .lt x.val x.val = true) ∧
     (xobjCompare D.ops .ne x x = false ∧ specCompare D.ops .ne x.val x.val = true) := by decide
+
+/-! ## Layer 3: location steps — predicates (§2.4) and axes (§2.2) -/
+
+/-- **The predicate loop of `XPath::predicates` is §2.4**, for every node list (in proximity order, any
+length), every predicate-value function and every interpretation of values satisfying `pos_true`
+(a number equal to a position ≥ 1 converts to `true`): nulling the entries with
+`(isNumber && i+1 != num) || !boolean()` and `clearNulls()` keeps exactly the nodes for which the
+predicate is true in the sense of §2.4 (number ⇒ equal to the proximity position, else `boolean()`),
+with `position() = i+1` and `last() = length`.  Reverse axes: `step` hands the list over in reverse
+document order, which is proximity order, and reverses the survivors at the end.
+`_partial`: stated for a predicate whose value is a function of (node, position, size) — the stale
+`position()` cache (finding C02-stale-position-cache) is outside that assumption. -/
+theorem predicates_spec_partial {V : Type} (sem : PredSem V) (ev : Nat → Nat → Nat → V) (l : List Nat) :
+    predicateModel sem ev l = predicateSpec sem ev l :=
+  nullLoop_spec sem ev l.length l 0
+
+/-- **The numeric-literal shortcut is §2.4 too**: for a literal that is a positive integer `k` (or is
+not: `isPosInt = false`), keeping `item(k-1)` / clearing / leaving a singleton untouched selects exactly
+the node whose proximity position equals the literal. -/
+theorem predicates_literal_spec (isPosInt : Bool) (k : Nat) (hk : isPosInt = true → 1 ≤ k) (l : List Nat) :
+    shortcutModel isPosInt k l = shortcutSpecLoop isPosInt k 0 l :=
+  shortcut_spec isPosInt k hk l
+
+/-- non-vacuity: a value interpretation satisfying `pos_true` (numbers are `some n`, booleans `none`-tagged) -/
+example : ∃ sem : PredSem (Option Nat × Bool),
+    predicateModel sem (fun m pos _ => if m = 7 then (some 2, true) else (none, pos % 2 == 1)) [5, 7, 9, 11] = [5, 7, 9] :=
+  ⟨{ isNum := fun v => v.1.isSome, numEqPos := fun v p => v.1 == some p, toBool := fun v => match v.1 with | some n => n != 0 | none => v.2,
+     pos_true := by intro v p h1 h2 h3; rcases v with ⟨_ | n, b⟩ <;> simp_all; omega }, by decide⟩
+
+/-- `axes_spec`, **test only** (kernel-evaluated on one 13-node document with attributes, text, comment,
+nested elements; all 13 axes × all 13 context nodes, attribute contexts included): each `find*` walk
+returns exactly the nodes of the axis in proximity order.  The general theorem over all documents is
+not proved (see design/C02.md); the walks are tied to the code by the evaluation correspondence. -/
+def axesSampleDoc : Doc := [
+  ⟨.root, "", "", none⟩, ⟨.elem, "r", "", some 0⟩, ⟨.attr, "id", "0", some 1⟩, ⟨.elem, "a", "", some 1⟩,
+  ⟨.attr, "p", "1", some 3⟩, ⟨.text, "", "1", some 3⟩, ⟨.elem, "c", "", some 3⟩, ⟨.text, "", "x", some 6⟩,
+  ⟨.elem, "b", "", some 1⟩, ⟨.comment, "", "n", some 8⟩, ⟨.elem, "a", "", some 1⟩, ⟨.attr, "q", "7", some 10⟩,
+  ⟨.elem, "e", "", some 1⟩]
+
+set_option maxRecDepth 100000 in
+theorem axes_spec_sample_partial :
+    (([.ancestor, .ancestorOrSelf, .attribute, .child, .descendant, .descendantOrSelf, .following, .followingSibling,
+       .parent, .preceding, .precedingSibling, .self, .namespace] : List Axis).all fun a =>
+      (List.range 13).all fun n => axesSampleDoc.find a n == axesSampleDoc.axis a n) = true := by decide
 
 end XalanModel.Props.C02
